@@ -25,7 +25,10 @@ RULE = (
     "undecodable bytes) concatenated and cut at generated positions (single read, 1-byte reads, cut between CR and LF, "
     "empty reads, random cuts). Non-trivial line = not byte-identical to a corpus line and either decoded or was "
     "rejected after passing the structural regex; stream = >= 1 valid line follows a rejected one; partition = >= 1 cut "
-    "strictly inside a frame. Distinctness by the literal line / stream / (bytes, cuts)."
+    "strictly inside a frame. Distinctness by the literal line / stream / (bytes, cuts). Coverage-guided campaigns (atheris/libFuzzer, "
+    "class 'fuzz'): 16 processes, each a libFuzzer run over 'RSSI frame' text with a structure-aware mutator (payload hex digits/bytes/"
+    "chunks with the length kept in step, verb, code, device type, address shape; raw byte mutations 1 time in 16) and the same "
+    "check_line() oracle inside the target; 15 start from disjoint slices of the corpus, one from an empty corpus."
 )
 
 DTM = datetime(2024, 3, 1, 12, 0, 0, 123456)
@@ -92,9 +95,11 @@ def check_line(col: Collector, line: str, cls: str, corpus: frozenset[str], extr
     o = outcomes[0]
     structural = _structural(line)
     nontrivial = line not in corpus and (o == "msg" or structural)
-    col.case(nt=line if nontrivial else None,
-             classes=[f"line:{cls}", f"outcome:{o}", "structural:yes" if structural else "structural:no"],
-             sample={"line": line, "class": cls, "outcome": o})
+    if cls == "fuzz":  # coverage-guided campaign: classes of its own (the generator floors are about the Hypothesis generators)
+        classes = ["fuzz", f"fuzz-outcome:{o}", "fuzz-structural:yes" if structural else "fuzz-structural:no"]
+    else:
+        classes = [f"line:{cls}", f"outcome:{o}", "structural:yes" if structural else "structural:no"]
+    col.case(nt=line if nontrivial else None, classes=classes, sample={"line": line, "class": cls, "outcome": o})
     return o
 
 
@@ -557,6 +562,13 @@ def explore_partitions(job: dict) -> dict:
 
 
 # ------------------------------------------------------------------------------------------------
+def explore_fuzz(job: dict) -> dict:
+    """Coverage-guided campaign (atheris / libFuzzer, structure-aware mutator) with this module's check_line() as the target's oracle."""
+    from vf import fuzz
+
+    return fuzz.run_campaign(dict(job, oracle="c01"))
+
+
 def run(ctx: Ctx, col: Collector) -> None:
     from vf.gen import frames as G
 
@@ -575,7 +587,16 @@ def run(ctx: Ctx, col: Collector) -> None:
     ctx.parallel(explore_streams, ctx.shards(ctx.n(2_400, 60_000), per_shard_min=20), col)
     ctx.parallel(explore_streams, ctx.shards(ctx.n(1_200, 30_000), per_shard_min=20, via="mqtt"), col)
     ctx.parallel(explore_partitions, ctx.shards(ctx.n(640, 16_000), per_shard_min=10), col)
-    ctx.floors = [("line:G3", "", 0.1), ("line:G5", "", 0.2), ("outcome:invalid", "", 0.1), ("outcome:msg", "", 0.2), ("stream:valid-after-reject", "stream:text", 0.5)]
+    from vf import fuzz
+
+    if fuzz.available():
+        # 15 campaigns seeded with disjoint slices of the corpus (one line per verb/code/length group) + one from an empty corpus
+        ctx.parallel(explore_fuzz, [{"runs": ctx.n(6_000, 1_500_000), "shard": i, "of": 15, "empty": i == 15} for i in range(16)], col)
+        ctx.floors = [("fuzz-outcome:msg", "fuzz", 0.03)]
+    else:
+        col.note("atheris not importable: coverage-guided campaign skipped")
+        ctx.floors = []
+    ctx.floors += [("line:G3", "", 0.1), ("line:G5", "", 0.2), ("outcome:invalid", "", 0.1), ("outcome:msg", "", 0.2), ("stream:valid-after-reject", "stream:text", 0.5)]
     ctx.extra["verb_code_pairs"] = npairs
 
 
